@@ -284,8 +284,8 @@ def mk(docs, job, cfg):
                         delivered[topic] += k
                     inflight = None
                 events_per_op.append([k_ for k_, _ in x.io_log[mark:]])
-            if power and not job.get('trace_only'):
-                # the power may also fail after the last operation has returned
+            if not job.get('trace_only'):
+                # the process may also die (the power may also fail) after the last operation has returned
                 st.update(op='end', ev=0)
                 inflight = None
                 ops_out.append(dict(op='abort_now', abort_at_event=1))
@@ -437,8 +437,10 @@ def mk(docs, job, cfg):
                 if not ok:
                     if consistency == 'StrictlyAtOnce' and len(ids) >= 1 and ids[0] in ack and ack.index(ids[0]) < d:
                         bad = ('c09-redelivery', 'topic %s: entry %s was returned by a completed consuming read before the crash and is delivered again' % (topic, ids[0]))
-                    elif ids and ids[0] in ack and ack.index(ids[0]) > hi:
-                        bad = ('c09-skip', 'topic %s: consumer resumes at entry %s, entries %s were never delivered' % (topic, ids[0], ack[hi:ack.index(ids[0])]))
+                    elif (d > 0 or read_inflight is not None) and len(ids) < len(pre[hi:] + postack) and (pre[hi:] + postack)[len(pre[hi:] + postack) - len(ids):] == ids:
+                        # the consumer resumes further on than any allowed position: a front part of the pending stream is gone
+                        full = pre[hi:] + postack
+                        bad = ('c09-skip', 'topic %s: the consumer (position %d before the crash) resumes at %s; entries %s were never delivered' % (topic, d, ids[:1] or 'the end', full[:len(full) - len(ids)]))
                     else:
                         bad = ('c07-lost', 'topic %s: acknowledged %s (consumed %d), in flight %s, recovered stream %s' % (topic, ack, d, infl, ids))
                     break
